@@ -347,3 +347,47 @@ def rule_r23(ctx, prog, roots, rule="R23"):
                        "not document arbitrary order: a non-commutative callback gives layout-dependent results" % "→".join(reversed(via)),
                        what="callback sees elements in layout-dependent order")
     return n
+
+
+ORDER_SENSITIVE_APPEND = {"push", "push_back", "push_front", "extend", "extend_from_slice", "insert", "append", "push_str", "write", "send"}
+
+
+def rule_r23_collect(ctx, prog, roots, rule="R23"):
+    """results must not be *collected in visiting order* by a traversal whose order follows the memory layout: inside a closure
+    driven by ndarray's `for_each`/`fold`/`Zip::for_each`… no captured collection may be appended to (the position an
+    element ends up at would depend on the layout of the input)"""
+    n = 0
+    for root in roots:
+        for b in prog.closures_of(root):
+            # is some enclosing closure consumed by an order-unspecified traversal?
+            cur = b
+            via = None
+            while cur.is_closure:
+                site = prog.closure_site(cur.key)
+                if site is None:
+                    break
+                parent = site[0]
+                me = ("agg", "closure", cur.key)
+                for cbb, ct in parent.calls():
+                    if any(strip(a)[:3] == me for a in parent.call_arg_exprs(cbb) if isinstance(strip(a), tuple)):
+                        nm = callee_name(ct)
+                        if (nm, ct["callee"].get("krate")) in ORDER_UNSPECIFIED and not (ct["callee"].get("trait") or "").endswith("Iterator"):
+                            via = via or nm
+                cur = parent
+            if via is None:
+                continue
+            n += 1
+            bad = []
+            for bb, t in b.calls():
+                nm = callee_name(t)
+                if nm not in ORDER_SENSITIVE_APPEND or not t["arg_tys"] or not t["arg_tys"][0].startswith("&mut "):
+                    continue
+                pb, pe = up(prog, b, b.call_arg_exprs(bb)[0])
+                if pb is not b:                       # the receiver is captured from outside the closure
+                    bad.append((nm, b.where(bb, "term")))
+            ctx.ob(rule, "%s/no-collection-in-visiting-order" % short(b.key), not bad, b.where(),
+                   "the closure driven by ndarray `%s` appends to no captured collection" % via if not bad else
+                   "a closure driven by ndarray `%s` (visiting order follows the memory layout) appends to a captured collection (%s): "
+                   "where a result ends up depends on the layout of the input" % (via, ", ".join("%s at %s" % x for x in bad)),
+                   what="results collected in layout-dependent order")
+    return n
